@@ -595,20 +595,39 @@ def run(ctx):
     for pname, unit in (('qmail-smtpd', 'qmail-smtpd.c'), ('qmail-qmtpd', 'qmail-qmtpd.c'), ('qmail-qmqpd', 'qmail-qmqpd.c')):
         p = db.program(pname)
         f = p.fn('saferead', unit)
-        rets = [x for x in f.all_x() if x.k == 'ret']
-        ok = bool(rets)
-        for x in rets:
-            gg = f.guards(x) or []
-            pos = False
-            zero = neg = False
-            for c, t in gg:
-                hs = holds_set(c, t, lambda v: (v.path() or '').startswith('L:r'))
-                if hs:
-                    if not hs(0):
-                        zero = True
-                    if not hs(-1):
-                        neg = True
-            ok = ok and zero and neg
+
+        class SR(QHooks):
+            def __init__(self):
+                self.rets = []
+
+            def tracked_global(self, path):
+                return path.startswith('$')
+
+            def prim_timeoutread(self, E, x, args):
+                return [Outcome(ret=fs(-1), sets={'$errno': fs(110), '$r': fs(-1)}), Outcome(ret=fs(-1), sets={'$errno': fs(5), '$r': fs(-1)}),
+                        Outcome(ret=fs(0), sets={'$r': fs(0)}), Outcome(ret=fs(5), sets={'$r': fs(5)})]
+
+            prim_read = prim_timeoutread
+
+            def prim___errno_location(self, E, x, args):
+                return [Outcome(ret=fs(('&', '$errno')))]
+
+            def _n(self, E, x, args):
+                return [Outcome(ret=TOP)]
+
+            prim_flush = prim_out = prim_substdio_flush = _n
+
+            def prim__exit(self, E, x, args):
+                return 'noreturn'
+
+            def on_return(self, E, fn, val):
+                if fn.name == 'saferead':
+                    self.rets.append((g1(E, '$r'), val))
+        SH_ = SR()
+        e_ = Engine(db, p, SH_)
+        e_.run(f, {})
+        rep.count_states(e_.states, e_.transitions)
+        ok = bool(SH_.rets) and all(r_ == 5 and v_ == fs(5) for r_, v_ in SH_.rets)
         reach = transitive_callees(p, f)
         r6.check(ok and 'qmail_close' not in reach, '%s:saferead-returns-only-positive' % pname, '%s:%d' % (f.unit, f.line),
                  'saferead may return 0/-1 to its caller or reaches qmail_close')
